@@ -264,8 +264,8 @@ class BaseDensePauliString(raw_types.Gate, metaclass=abc.ABCMeta):
         if isinstance(other, (sympy.Basic, numbers.Number)):
             return self.__mul__(other)
 
-        if other := _try_interpret_as_dps(other):
-            return other.__mul__(self)
+        if (other_dps := _try_interpret_as_dps(other)) is not None:
+            return other_dps.__mul__(self)
 
         return NotImplemented
 
